@@ -696,6 +696,10 @@ class ChangeOfValueServices(Capability):
         # request is to cancel the subscription
         cancel_subscription = (confirmed is None) and (lifetime is None)
 
+        # no lifetime means an indefinite subscription
+        if lifetime is None:
+            lifetime = 0
+
         # find the object
         obj = self.get_object_id(obj_id)
         if _debug: ChangeOfValueServices._debug("    - object: %r", obj)
@@ -775,6 +779,10 @@ class ChangeOfValueServices(Capability):
 
         # request is to cancel the subscription
         cancel_subscription = (confirmed is None) and (lifetime is None)
+
+        # no lifetime means an indefinite subscription
+        if lifetime is None:
+            lifetime = 0
 
         # find the object
         obj = self.get_object_id(obj_id)
